@@ -65,7 +65,7 @@ char *event_mm_strdup_(const char *str)
 /* realloc of a string object created by event_mm_strdup_/event_mm_realloc_ */
 void *event_mm_realloc_(void *ptr, size_t sz)
 {
-	char *p; size_t i;
+	char *p;
 	vp_alloc_calls++;
 	if (sz == 0) { free(ptr); return NULL; }
 	if (vp_alloc_should_fail()) return NULL;
@@ -74,7 +74,7 @@ void *event_mm_realloc_(void *ptr, size_t sz)
 	p = malloc(VP_STR_OBJ);
 	__CPROVER_assume(p != NULL);
 	if (ptr) {
-		for (i = 0; i < VP_STR_OBJ; i++) p[i] = ((char *)ptr)[i];
+		memcpy(p, ptr, VP_STR_OBJ); /* constant size */
 		free(ptr);
 	}
 	return p;
